@@ -3,9 +3,13 @@ C09 - translator tie: the body of `MachineController._get_next_nn_id`
 (rig/machine_control/machine_controller.py) is regenerated from the source into `Gen/PyFun.lean`
 (state passing: the attribute `self._nn_id` is a parameter, the result is the returned id and the final
 `_nn_id`); it is proved equal to the model's `nextNn` (new `_nn_id`; the id sent is twice it).
+Second round: `_send_ffs`, `_send_ffcs`, `_send_ffe` - methods whose whole behaviour is one `self._send_scp(...)`
+call; the generated definition is the list of the calls' integer arguments (the `NNCommands` / `SCPCommands`
+members read from consts.py), proved equal to the model's `ffsReq` / `ffcsReq` / `ffeReq`.
 -/
 import RigModel.Model.C09
 import RigModel.Gen.PyFun
+import RigModel.Lemmas.IntBits
 import Mathlib.Tactic.SplitIfs
 set_option linter.unusedSimpArgs false
 set_option linter.unusedVariables false
@@ -13,7 +17,7 @@ set_option linter.unusedTactic false
 set_option linter.unreachableTactic false
 
 namespace Rig.C09
-open Rig.Gen
+open Rig.Gen Rig.IntBits Rig.Gen.Load Rig.Gen.Scp
 
 /-- `_get_next_nn_id` as written in the source = the model: returns `2 * nextNn n` and leaves
 `self._nn_id = nextNn n` -/
@@ -21,5 +25,43 @@ theorem gen_get_next_nn_id (n : Nat) :
     PyFun.MachineController_get_next_nn_id n = (((2 * nextNn n : Nat) : Int), ((nextNn n : Nat) : Int)) := by
   simp only [PyFun.MachineController_get_next_nn_id, nextNn, Prod.mk.injEq]
   constructor <;> (try split_ifs) <;> omega
+
+/-! ### the flood-fill packets: `_send_ffs`, `_send_ffcs`, `_send_ffe` -/
+
+/-- the integer arguments of the `_send_scp(x, y, p, cmd, arg1, arg2, arg3)` call a request stands for -/
+def reqInts (r : Req) : Int × Int × Int × Int × Int × Int × Int :=
+  ((r.x : Int), (r.y : Int), (r.p : Int), (r.cmd : Int), (r.arg1 : Int), (r.arg2 : Int), (r.arg3 : Int))
+
+/-- comparison of two naturals built from `|||` and `<<<` -/
+macro "nat_bits" : tactic => `(tactic|
+  first
+    | rfl
+    | (simp [Nat.lor_comm, Nat.lor_assoc]; done)
+    | (apply Nat.eq_of_testBit_eq; intro i; simp only [Nat.testBit_or, Nat.testBit_shiftLeft]; grind))
+
+/-- cast-free form of a generated packet expression, then comparison of the naturals -/
+macro "ff_eq" : tactic => `(tactic|
+  (simp (disch := decide) only [reqInts, nnReq, lit_natCast, zero_natCast, one_natCast, shl_natCast, shr_natCast,
+     land_natCast, lor_natCast, xor_natCast, add_natCast, mul_natCast, Int.toNat_natCast, List.nil_append,
+     List.cons.injEq, Prod.mk.injEq, Nat.cast_inj, and_true]
+   try (repeat' apply And.intro)
+   all_goals (first | trivial | nat_bits)))
+
+/-- `_send_ffs` as written in the source: one `_send_scp` call with the arguments of the model's `ffsReq`
+(`fr` being what `flood_fill_aplx` passes) -/
+theorem gen_send_ffs (pid nBlocks : Nat) :
+    PyFun.MachineController_send_ffs pid nBlocks (fr : Nat) = [reqInts (ffsReq pid nBlocks)] := by
+  unfold PyFun.MachineController_send_ffs ffsReq
+  ff_eq
+
+theorem gen_send_ffcs (region coreMask : Nat) :
+    PyFun.MachineController_send_ffcs region coreMask (fr : Nat) = [reqInts (ffcsReq (region, coreMask))] := by
+  unfold PyFun.MachineController_send_ffcs ffcsReq
+  ff_eq
+
+theorem gen_send_ffe (pid appId flags : Nat) :
+    PyFun.MachineController_send_ffe pid appId flags (fr : Nat) = [reqInts (ffeReq pid appId flags)] := by
+  unfold PyFun.MachineController_send_ffe ffeReq
+  ff_eq
 
 end Rig.C09
